@@ -88,7 +88,7 @@ def check(rep, F, rule='NORMAL-FORM'):
     try:
         paths = TB.PathEnum(F, fn, max_paths=32).run()
     except Undecided as e:
-        rep.undecided(rule, fn.key + ':shape', str(e), fn.where())
+        rep.undecided_anchor(rule, fn.key + ':shape', str(e), fn.where())
         return 0
     n = 0
     for atoms, out in paths:
